@@ -245,6 +245,14 @@ class DeepPhase3(Contract):
         ex.oblige(self.oname("ensures:common_files_of_the_two_directories_are_compared_by_content"), z3.BoolVal(bool(ok)), note=repr(g.get("call")))
         ex.oblige(self.oname("ensures:same_/_differing_/_uncomparable_files_are_stored_in_that_order"),
                   z3.BoolVal((o.fields.get("same_files"), o.fields.get("diff_files"), o.fields.get("funny_files")) == ("SAME", "DIFF", "FUNNY")))
+        # class constant (read from the imported module of this tree): filecmp.dircmp computes its lazy attributes through `methodmap`;
+        # the attributes the sync code reads (diff_files; same_files for symmetry) must be routed to the content comparison, or dircmp
+        # falls back to its own shallow phase3 for them
+        real = o.cls.real
+        mm = getattr(real, "methodmap", {}) if real is not None else {}
+        ex.oblige(self.oname("const:methodmap_routes_diff_files_and_same_files_to_the_content_comparison"),
+                  z3.BoolVal(real is not None and all(mm.get(k) is real.__dict__.get("phase3") for k in ("same_files", "diff_files"))),
+                  note=repr({k: getattr(mm.get(k), "__qualname__", mm.get(k)) for k in ("same_files", "diff_files")}))
 
 
 class IdenticalPath(Contract):
